@@ -29,11 +29,12 @@ Record entry : Set := mkEntry {
 }.
 
 (* ---------- sort_dataframe_by_onsets ----------
-   df.sort_values(by=numeric onset).  pandas is called without kind=, so the
-   order among equal keys is whatever the platform's quicksort produces; the
-   model takes that order as an optional explicit argument [perm] (positions of
-   the input, in output order) and otherwise uses the order-preserving
-   (stable) insertion sort. *)
+   df.sort_values(by=numeric onset).  Before fix C10-F1 pandas was called without
+   kind=, so the order among equal keys was whatever the platform's quicksort
+   produced; the model of the unrepaired code takes that order as an optional
+   explicit argument [perm] (positions of the input, in output order) and
+   otherwise uses the order-preserving (stable) insertion sort.  The repaired
+   code (kind='stable') is the stable sort. *)
 Section Sort.
   Context {A : Type} (key : A -> N).
 
@@ -86,6 +87,13 @@ Section Sort.
           if sortedb out then Ok out else Exn Unmodelled    (* not a sorting order *)
         else Exn Unmodelled
     end.
+
+  (* sort_dataframe_by_onsets itself.  [fixed] = the repaired code
+     (sort_values(..., kind='stable'), fix C10-F1): the order among equal keys is
+     the input order and the platform's choice [perm] plays no role. *)
+  Definition sort_dataframe_by_onsets (fixed : bool) (perm : option (list nat)) (l : list A)
+    : res (list A) :=
+    if fixed then Ok (stable_sort l) else sort_by perm l.
 End Sort.
 
 (* ---------- BaseInput.needs_sorting: not onsets.is_monotonic_increasing ---------- *)
@@ -189,16 +197,16 @@ Fixpoint index_from {B} (i : nat) (l : list B) : list (nat * B) :=
   match l with [] => [] | x :: r => (i, x) :: index_from (S i) r end.
 
 (* ---------- SpreadsheetValidator.validate, onset part ----------
-   perm1 / perm2: the tie orders chosen by the two sort_values calls
-   (None = order-preserving). *)
-Definition process_file (perm1 perm2 : option (list nat)) (rows : list row)
+   fixed: the repaired sort (fix C10-F1).  perm1 / perm2: the tie orders chosen by
+   the two sort_values calls of the unrepaired code (None = order-preserving). *)
+Definition process_file (fixed : bool) (perm1 perm2 : option (list nat)) (rows : list row)
   : res (state * list (nat * list issue)) :=
   let irows := index_from 0 rows in
   let* irows' := if needs_sorting rows
-                 then sort_by (fun ir : nat * row => r_onset (snd ir)) perm1 irows
+                 then sort_dataframe_by_onsets (fun ir : nat * row => r_onset (snd ir)) fixed perm1 irows
                  else Ok irows in
   let entries := split_entries irows' in
-  let* sorted := sort_by e_time perm2 entries in
+  let* sorted := sort_dataframe_by_onsets e_time fixed perm2 entries in
   let d := indexed_dict_from_onsets (map e_time sorted) in
   let* lines := filter_by_index_list sorted d in
   let invalid := flat_map (fun ir : nat * row => if r_invalid (snd ir) then [fst ir] else []) irows in
